@@ -471,6 +471,22 @@ func init() {
 				jobs = append(jobs, Job{Pkg: "handlers/arp_spoofer", Func: "VerifC07ARP", Args: []int64{w}, Cfg: direct, Reach: []string{"processed"}})
 			}
 			jobs = append(jobs, arpJobs()...)
+			// frames emitted along the ICMPv6 handler harnesses (spoofed NAs, corrective NA)
+			for _, j := range icmp6Jobs(tier) {
+				if j.Func == "VerifC14Loop" {
+					jobs = append(jobs, j)
+				}
+			}
+			// DHCP replies (OFFER / ACK / NAK) along the C11 step harness: every message variant in every mode from the empty table
+			for _, j := range dhcpJobs("quick") {
+				if len(j.Args) == 3 && j.Args[2] == 0 {
+					jobs = append(jobs, j)
+				}
+			}
+			// naming handler queries
+			for k := int64(0); k <= 4; k++ {
+				jobs = append(jobs, Job{Pkg: "handlers/dns_naming", Func: "VerifC07Naming", Args: []int64{k}, Cfg: direct, Reach: []string{"sent"}})
+			}
 			return jobs
 		},
 		Filter: func(f Finding) bool {
@@ -488,6 +504,9 @@ func init() {
 				"ICMP6SendRouterSolicitation / ICMP6SendRouterAdvertisement":      "arbitrary host LLA; RA with one arbitrary prefix (any length 0..128) and an optional RDNSS server, DNSSL \"lan\", MTU, source LLA",
 				"ARP handler":                         "RequestRaw, Reply, Request, RequestTo, Probe, AnnounceTo with every destination MAC, sender and target (MAC, IPv4); plus every frame emitted along the C13 harnesses (spoof replies, probe rejects, spoof-loop announcements and the corrective request)",
 				"NIC configuration":                   "symbolic host and router MAC, host link-local address; home LAN 192.168.0.0/24",
+				"ICMPv6 handler":                      "every forged / corrective neighbour advertisement emitted along the C14 spoof-loop harnesses",
+				"DHCP handler":                        "every OFFER / ACK / NAK emitted along the C11 step harness from the empty lease table (7 message variants x 3 modes): complete frame, host NIC MAC, IPv4 / UDP headers consistent, BOOTREPLY with cookie and message type",
+				"naming handler":                      "SendNBNSNodeStatus, SendNBNSQuery, SendMDNSQuery, SendLLMNRQuery (5-letter symbolic label), SendSSDPSearch: Ethernet/IPv4/UDP consistency, IPv4 header checksum, protocol address and port, question name / request line",
 			}
 		},
 		Assumptions: []string{
@@ -496,7 +515,7 @@ func init() {
 			"pooled frame buffers start with arbitrary contents",
 		},
 		Outside: []string{
-			"frames emitted by the DHCP, ICMPv6-spoofing and naming handlers (offers/acks/naks, NBNS/mDNS/LLMNR/SSDP queries): not encoded in this session",
+			"DHCP client-side frames (forced DISCOVER / DECLINE / RELEASE towards the real server), the mDNS sleep-proxy response, UDP checksums",
 			"the purge probe goroutine beyond its call to arpRequest / NS / echo (those functions are covered with arbitrary arguments)",
 		},
 	})
